@@ -53,13 +53,17 @@ def plan(tier, seed):
     for arch, dev in archs(tier):
         for q in range(3):
             items.append(dict(arch=arch, q=q, dev=dev))
+    for arch in ([1, 1, 1], [2, 1, 2], [2, 2, 1], [3, 2, 2]):
+        items.append(dict(arch=arch, scope="stateful"))
     return items
 
 
-def check_case(acc, arch, params):
+def check_case(acc, arch, params, st=None, history=None):
     case = dict(kind="mixed", arch=arch, params=params)
+    if history is not None:
+        case["history"] = history
     L = lib()
-    st = build_state("mixed", arch, params)
+    st = build_state("mixed", arch, params) if st is None else st
     n = arch[0]
     D = 2 ** n
     space = tbits(n)
@@ -134,8 +138,40 @@ def check_case(acc, arch, params):
     acc.transitions += 3 * D * D + D
 
 
+def stateful_seq(arch):
+    from ..common import pattern, net_sizes, aux_bias_slice
+    sizes = net_sizes("mixed", arch)
+    sl = aux_bias_slice(arch)
+    seq = []
+    for q in range(5):
+        ps = [pattern(n, q, r) for r, n in enumerate(sizes)]
+        for t in range(sl.start, sl.stop):
+            ps[1][t] = 0.0
+        seq.append(ps)
+    return seq
+
+
+def run_stateful(acc, arch, upto=None):
+    """non-initial states: one LIVE model evaluated, updated in place (four styles), evaluated again"""
+    from ..common import update_params, UPDATE_STYLES
+    seq = stateful_seq(arch)
+    st = build_state("mixed", arch, seq[0])
+    check_case(acc, arch, seq[0], st=st, history=[])
+    hist = []
+    for i, style in enumerate(UPDATE_STYLES):
+        hist = hist + [dict(update=style, to_pattern=i + 1)]
+        update_params(st, seq[i + 1], style)
+        check_case(acc, arch, seq[i + 1], st=st, history=hist)
+
+
 def run_item(item):
     acc = Acc()
+    if item.get("scope") == "stateful":
+        run_stateful(acc, item["arch"])
+        acc.sample(dict(kind="mixed", arch=item["arch"], scope="stateful", updates=["copy_", "rebind", "load_state_dict", "add_"]), cap=1)
+        acc.states = acc.evaluations
+        acc.traces = acc.evaluations
+        return acc
     first = True
     for tag, params in param_assignments("mixed", item["arch"], npat=1, dev=item["dev"], q0=item["q"]):
         check_case(acc, item["arch"], params)
@@ -149,5 +185,8 @@ def run_item(item):
 
 def replay(case):
     acc = Acc()
+    if case.get("history"):
+        run_stateful(acc, case["arch"])
+        return acc
     check_case(acc, case["arch"], case["params"])
     return acc
